@@ -67,6 +67,19 @@ def implicitUsersForPermission (cands : List String) (decide : String → Option
   | none => .err
   | some l => .ok ((l.filter (·.2)).map (·.1))
 
+/-- `GetImplicitUsersForResource(resource)` (after its repair): the rules on the resource; a rule
+    held by a role name stands for every non-role name that inherits the role, directly or through
+    other roles.  `isRole` = `GetAllRoles()` (second column of the grouping rules), `si` / `oi` =
+    the `sub` / `obj` field indexes; duplicates removed keeping first occurrences. -/
+def implicitUsersForResource (policy : List Rule) (rm : RM) (isRole : String → Bool) (si oi : Nat)
+    (resource : String) : Option (List Rule) :=
+  ((policy.filter (fun rule => rule.getD oi "" == resource)).mapM (fun rule =>
+      let sub := rule.getD si ""
+      if !isRole sub then some [rule]
+      else (implicitUsersForRole rm sub []).map
+        (fun us => (us.filter (fun u => !isRole u)).map (fun u => rule.set si u)))).map
+    (fun rows => rows.flatten.eraseDups)
+
 /-- the stock RBAC model: `m = g(r.sub, p.sub) && r.obj == p.obj && r.act == p.act`, allow-override -/
 def rbacModel : ModelDef :=
   { r := [("r", 3)], p := [("p", ["sub", "obj", "act"])], g := [("g", 2, .plain)],
